@@ -5,11 +5,12 @@
    PARTIAL: proved = (a) entries where f is finite are returned unchanged, (b) exactness on sequences that are a
    polynomial of degree <= order in the step (Limit) / poles g(z)/(z - z0)^p with such g (Residue), for both signs,
    (c) the sign table, the rule used (order + 1 terms, step 1, order 1), enough steps for every ratio in [2,16]
-   and order 1..8.  NOT proved: the error bound for non-polynomial analytic g and the listed kernels, and the
-   complex-valued pipeline (explored by the sweep against exact values). *)
+   and order 1..8, (b') the exactness statement over the complex numbers (complex z0, spiral paths).
+   NOT proved: the error bound for non-polynomial analytic g and the listed kernels (explored by the sweep
+   against exact values). *)
 From Coq Require Import String Reals ZArith QArith Qreals List Bool Lia Lra.
 Require Import NDT.Arith.Ops NDT.Arith.OpsR NDT.Model.Limit NDT.Model.Convolve NDT.Model.Pipeline NDT.Theory.RichardsonTheory
-               NDT.Theory.LimitTheory NDT.Theory.LimitSteps NDT.Theory.LimitGen NDT.Gen.Limits NDT.Gen.Guards.
+               NDT.Theory.LimitTheory NDT.Theory.LimitSteps NDT.Theory.LimitGen NDT.Theory.RichardsonField NDT.Theory.LimitComplex NDT.Arith.OpsC NDT.Gen.Limits NDT.Gen.Guards.
 Import ListNotations.
 
 (* (a) any arithmetic: wherever f(z) is not NaN the value is f's own, with error estimate 0; shapes are kept *)
@@ -46,6 +47,16 @@ Theorem C18_side eps tiny huge z s steps : Forall (fun h => 0 < h) steps ->
   (s = 1 -> Forall (fun x => z < x) (lim_points (OpsR eps tiny huge) z (lim_steps (OpsR eps tiny huge) s steps))) /\
   (s = -1 -> Forall (fun x => x < z) (lim_points (OpsR eps tiny huge) z (lim_steps (OpsR eps tiny huge) s steps))).
 Proof. exact (lim_points_side eps tiny huge z s steps). Qed.
+
+(* (b') the same over the complex numbers C = R x R (numpy's lexicographic order, modulus as (|z|, 0), complex percentiles):
+   complex z0 or complex-valued f, and spiral paths (complex h0 and complex step ratio rho) *)
+Theorem C18_limit_exact_complex eps tiny huge (tf thr c8 c15 : C) (rho L h0 : C) (w : list C) (terms : list (C * nat)) len hs :
+  0 <= eps ->
+  wsumK C (0, 0) Cadd Cmul w (fun _ => (1, 0)) = (1, 0) ->
+  (forall a k, In (a, k) terms -> wsumK C (0, 0) Cadd Cmul w (fun i => kpow C (1, 0) Cmul rho (i * k)) = (0, 0)) ->
+  (2 <= length w)%nat -> symcode (OpsC eps tiny huge) w = 0%Z -> (length w <= len)%nat ->
+  fst (fst (fst (extrapolate_c (OpsC eps tiny huge) tf thr c8 c15 (map (sqK C (0, 0) (1, 0) Cadd Cmul rho L h0 terms) (seq 0 len)) hs w))) = L.
+Proof. intros He. exact (limit_exact_complex eps tiny huge He tf thr c8 c15 rho L h0 w terms len hs). Qed.
 
 (* (c) the translated decision logic *)
 Theorem C18_sign_table : lim_sign "above"%string = Some 1%Z /\ lim_sign "forward"%string = Some 1%Z /\ lim_sign "below"%string = Some (-1)%Z /\ lim_sign "backward"%string = Some (-1)%Z.
